@@ -120,7 +120,7 @@ def run_once(sc, src, dst, fl, ids, k=1, extra_env=None, extra_args=(), select=N
         env.update(extra_env)
     old_env = dict(sc.env)
     sc.env.update(env)
-    run_start = time.time_ns() - 2_000_000
+    run_start = time.time_ns() - 50_000_000
     rr = world.run_sy([src, dst] + cli_of(fl) + list(extra_args), sc)
     sc.env.clear(); sc.env.update(old_env)
     after = world.snapshot(dst)
